@@ -86,6 +86,35 @@ CLAIMED = {
         "only in stage C (constructor requires bandwidth>=6).",
         "TLA+ scan-automaton model checked with TLC + spec-to-code replay + trace validation",
     ),
+    "C07": (
+        "7/C07",
+        "GreedyDefs.tla, SeededBinseg.tla, Trace_Binseg.tla",
+        "TLC checks the zeroing while-loop of greedy_changepoint_selection (one action per turn, any tie "
+        "resolution) against the recursive greedy definition for every set of up to K admissible candidate "
+        "intervals with every (score, arg-max) assignment and half-integer threshold within the constants "
+        "(characterisation, support, nothing left, spacing, threshold monotonicity as a prefix property); "
+        "cases are replayed through the selection function, and recorded SeededBinarySegmentation runs "
+        "(integer score tables over all cuts with frequent ties; built-in scores; the (n, M, L, growth) grid "
+        "incl. L = 2M) are validated by TLC: candidates admissible and non-empty, per-interval score/arg-max "
+        "are the maximum/maximiser over the admissible splits, the output is a greedy result, pairs of "
+        "thresholds are monotone.",
+        "The interval construction itself (geomspace, rounding) is an input to the spec: only admissibility "
+        "and non-emptiness are required, as the property states. Exhaustive for n<=6/8, K<=3; sampled n<=24; "
+        "runs with a score within tol*unit of the threshold are not judged (R3).",
+        "TLA+ greedy-loop model checked with TLC + spec-to-code replay + trace validation",
+    ),
+    "C09": (
+        "7/C09",
+        "GreedyDefs.tla, SeededBinseg.tla (Mode = overlaps), Trace_Binseg.tla",
+        "As C07 with inner intervals: TLC checks that the double loop of make_anomaly_intervals is the set "
+        "Inner(s,e,M), that candidates without inner interval keep score 0 and are never selected, and the "
+        "greedy loop with overlap removal against the recursive definition (disjoint, strictly inside, "
+        "threshold monotone); recorded CircularBinarySegmentation runs (integer local-score tables over all "
+        "4-point cuts; LocalAnomalyScore of built-in costs) are validated by TLC incl. the reported arg-max "
+        "inner interval of every candidate.",
+        "Exhaustive for n<=7, K<=2/3 candidates; sampled n<=18; R3 margins as C07.",
+        "TLA+ greedy-loop model checked with TLC + spec-to-code replay + trace validation",
+    ),
 }
 
 NOT_YET = {}
